@@ -516,8 +516,38 @@ def base_members(src, cls):
 
 # ------------------------------------------------------------------ how values and text are rendered (utils.hpp)
 
+def no_comments(src):
+    """remove // and /* */ comments, keep string and character literals as they are"""
+    out = []
+    i, n = 0, len(src)
+    while i < n:
+        if src.startswith('//', i):
+            j = src.find('\n', i)
+            i = n if j < 0 else j
+        elif src.startswith('/*', i):
+            j = src.find('*/', i + 2)
+            i = n if j < 0 else j + 2
+        elif src.startswith('R"(', i):
+            j = src.find(')"', i + 3)
+            j = n if j < 0 else j + 2
+            out.append(src[i:j])
+            i = j
+        elif src[i] == '"' or (src[i] == "'" and i + 2 < n and (src[i + 2] == "'" or src[i + 1] == '\\')):
+            q = src[i]
+            j = i + 1
+            while j < n and src[j] != q:
+                j += 2 if src[j] == '\\' else 1
+            out.append(src[i:j + 1])
+            i = j + 1
+        else:
+            out.append(src[i])
+            i += 1
+    return ''.join(out)
+
+
 def fn_body(src, name):
     """text of the body of the (first) function `name`, comments removed, blanks squeezed"""
+    src = no_comments(src)
     m = re.search(r'\b%s\s*\(' % re.escape(name), src)
     while m:
         # skip calls: a definition is followed by `{` after its parameter list
@@ -643,6 +673,176 @@ def macros_std_unqualified(repo, used_macros):
                 break
     return out
 
+
+# ------------------------------------------------------------------ names_generator.hpp: which name is reserved where
+
+NG = 'names_generator.hpp'
+SET_NAMES = {'members': 'members', 'entry_members': 'members', 'mangled_type_names': 'mangled',
+             'mangled_message_names': 'mangled', 'non_mangled_type_names': 'nonMangled',
+             'non_mangled_message_names': 'nonMangled'}
+MANGLE_NAME_BODY = ('for(std::size_t n = 0; n != std::numeric_limits<std::size_t>::max(); n++) { const auto mangled_name = '
+                    'fmt::format("{}_{}", original_name, n); const auto is_reserved = (reserved_names.count(mangled_name) || ...); '
+                    'if(!is_reserved) { return mangled_name; } } throw_error( "{}: can\'t generate a mangled name for `{}`", '
+                    'location, original_name);')
+MANGLE_GROUP_BODY = ('for(std::size_t n = 0; n != std::numeric_limits<std::size_t>::max(); n++) { const auto mangled_group_name = '
+                     'fmt::format("{}_{}", original_name, n); const auto entry_name = make_group_entry_name(mangled_group_name); '
+                     'const auto is_reserved = entry_members.count(mangled_group_name) || (reserved_names.count(mangled_group_name) || ...) '
+                     '|| entry_members.count(entry_name) || (reserved_names.count(entry_name) || ...); if(!is_reserved) { '
+                     'return {mangled_group_name, entry_name}; } } throw_error( "{}: can\'t generate a mangled name for `{}`", '
+                     'location, original_name);')
+ENTRY_NAME_BODY = 'return fmt::format("{}_entry", group_name);'
+
+
+def squeeze(t):
+    return re.sub(r'\s+', '', t)
+
+
+def match_close(src, i, o, c):
+    depth = 0
+    while i < len(src):
+        if src[i] == o:
+            depth += 1
+        elif src[i] == c:
+            depth -= 1
+            if depth == 0:
+                return i
+        elif src[i] == '"':
+            i += 1
+            while src[i] != '"':
+                i += 2 if src[i] == '\\' else 1
+        i += 1
+    raise ExtractError('unbalanced')
+
+
+def decision_site(body, what, own, refs, set_var):
+    """the `if(<lookups>) { mangle … } [else { … }] <hoisted statements>` of one loop of names_generator:
+    (lookups, reserved sets handed to the mangling loop, inserted names in the mangled branch, in the plain branch)"""
+    m = None
+    for mm in re.finditer(r'\bif\s*\(', body):
+        j = match_close(body, mm.end() - 1, '(', ')')
+        cond = body[mm.end():j]
+        if '.count(' in cond and '"' not in cond:
+            m = (mm, j, cond)
+            break
+    if m is None:
+        raise ExtractError('%s: decision `if` not found' % what)
+    mm, j, cond = m
+    k = body.index('{', j)
+    ke = match_close(body, k, '{', '}')
+    then = body[k + 1:ke]
+    rest = body[ke + 1:].lstrip()
+    els = ''
+    if rest.startswith('else'):
+        k2 = rest.index('{')
+        k2e = match_close(rest, k2, '{', '}')
+        els = rest[k2 + 1:k2e]
+        rest = rest[k2e + 1:]
+    # statements after the decision, up to the end of the enclosing block
+    depth = 0
+    for idx, ch in enumerate(rest):
+        if ch == '{':
+            depth += 1
+        elif ch == '}':
+            if depth == 0:
+                rest = rest[:idx]
+                break
+            depth -= 1
+    before = body[:mm.start()]
+
+    def ref(arg, branch):
+        a = squeeze(arg)
+        for pat, r in refs:
+            if re.fullmatch(pat, a):
+                if r == 'chosen':
+                    return 'mangledName' if branch == 'mangled' else 'own'
+                if r == 'chosenEntry':
+                    return 'mangledEntry' if branch == 'mangled' else 'ownEntry'
+                return r
+        raise ExtractError('%s: name `%s` not recognised' % (what, arg.strip()))
+    lookups = []
+    for term in cond.split('||'):
+        t = squeeze(term)
+        mt = re.fullmatch(r'(\w+)\.count\((.+)\)', t)
+        if not mt or mt.group(1) not in SET_NAMES:
+            raise ExtractError('%s: lookup `%s` not recognised' % (what, term.strip()))
+        lookups.append((SET_NAMES[mt.group(1)], ref(mt.group(2), 'plain')))
+    mk = re.search(r'make_mangled_(?:name|group_info)\s*\(', then)
+    if not mk:
+        raise ExtractError('%s: mangling call not found' % what)
+    ae = match_close(then, mk.end() - 1, '(', ')')
+    args = [squeeze(a) for a in then[mk.end():ae].split(',')]
+    if args[0] != squeeze(own) or not args[1].endswith('location'):
+        raise ExtractError('%s: mangling call arguments not recognised' % what)
+    reserved = []
+    for a in args[2:]:
+        if a not in SET_NAMES:
+            raise ExtractError('%s: reserved set `%s` not recognised' % (what, a))
+        reserved.append(SET_NAMES[a])
+
+    def inserts(text, branch):
+        out = []
+        for mi in re.finditer(r'(\w+)\.insert\s*\(', text):
+            e = match_close(text, mi.end() - 1, '(', ')')
+            if mi.group(1) != set_var:
+                raise ExtractError('%s: insert into `%s`' % (what, mi.group(1)))
+            out.append(ref(text[mi.end():e], branch))
+        return out
+    if re.search(r'\.insert\s*\(', before.split('const auto members')[-1] if 'const auto members' in before else ''):
+        raise ExtractError('%s: insert before the decision' % what)
+    ins_m = inserts(then, 'mangled') + inserts(rest, 'mangled')
+    ins_p = inserts(els, 'plain') + inserts(rest, 'plain')
+    # the chosen names must be what the context records
+    st = squeeze(then)
+    if not re.search(r'mangled_name=(mangled_name|mangled_group_info\.group_name);', st):
+        raise ExtractError('%s: `mangled_name` assignment not recognised' % what)
+    return {'lookups': lookups, 'reserved': reserved, 'insMangled': ins_m, 'insPlain': ins_p}
+
+
+def names_generator_shape(repo, report):
+    raw = open(os.path.join(repo, SRC, NG), encoding='utf-8').read()
+    report['sources'][SRC + NG] = hashlib.sha256(raw.encode()).hexdigest()
+    aux_ok = (fn_body(raw, 'make_mangled_name') == MANGLE_NAME_BODY and fn_body(raw, 'make_mangled_group_info') == MANGLE_GROUP_BODY
+              and fn_body(raw, 'make_group_entry_name') == ENTRY_NAME_BODY)
+    type_refs = [(r'actual_enc\.name', 'own'), (r'mangled_name', 'mangledName'),
+                 (r'ctx_manager->get\(actual_enc\)\.mangled_name\.value_or\(actual_enc\.name\)', 'chosen')]
+    msg_refs = [(r'm\.name', 'own'), (r'mangled_name', 'mangledName'),
+                (r'ctx_manager->get\(m\)\.mangled_name\.value_or\(m\.name\)', 'chosen')]
+    grp_refs = [(r'g\.name', 'own'), (r'entry_name', 'ownEntry'), (r'mangled_group_info\.group_name', 'mangledName'),
+                (r'mangled_group_info\.entry_name', 'mangledEntry'),
+                (r'(context|ctx_manager->get\(g\))\.mangled_name\.value_or\(g\.name\)', 'chosen'),
+                (r'(context|ctx_manager->get\(g\))\.entry_name', 'chosenEntry')]
+    gtn = fn_body(raw, 'generate_type_names')
+    hce = fn_body(raw, 'handle_composite_elements')
+    gmn = fn_body(raw, 'generate_message_names')
+    hml = fn_body(raw, 'handle_message_level')
+    if None in (gtn, hce, gmn, hml):
+        raise ExtractError('names_generator: a loop function was not found')
+    if 'const auto entry_name = make_group_entry_name(g.name);' not in hml:
+        raise ExtractError('handle_message_level: `entry_name` is not make_group_entry_name(g.name)')
+    if not re.search(r'entry_name\s*=\s*mangled_group_info\.entry_name;', hml) or \
+            not re.search(r'entry_name\s*=\s*entry_name;', hml):
+        raise ExtractError('handle_message_level: `entry_name` assignments not recognised')
+    sites = {
+        'publicTypeSite': decision_site(gtn, 'generate_type_names', 'actual_enc.name', type_refs, 'mangled_type_names'),
+        'inlineTypeSite': decision_site(hce, 'handle_composite_elements', 'actual_enc.name', type_refs, 'mangled_type_names'),
+        'messageSite': decision_site(gmn, 'generate_message_names', 'm.name', msg_refs, 'mangled_message_names'),
+        'groupSite': decision_site(hml, 'handle_message_level', 'g.name', grp_refs, 'mangled_message_names'),
+    }
+    # the tag containers `types` / `messages`
+    tags_ok = bool(re.search(r'if\(non_mangled_type_names\.count\("types"\)\) \{ const auto mangled_tag_types_name = make_mangled_name\( '
+                             r'"types", schema->location, non_mangled_type_names\);', gtn)) and \
+        bool(re.search(r'if\(non_mangled_message_names\.count\("messages"\)\) \{ const auto mangled_tag_messages_name = '
+                       r'make_mangled_name\( "messages", schema->location, non_mangled_message_names\);', gmn))
+    report['names_generator'] = {'sites': sites, 'mangle_loops_ok': aux_ok, 'tag_containers_ok': tags_ok}
+    return sites, aux_ok and tags_ok
+
+
+def lean_site(name, site, doc):
+    return ('/-- %s -/\ndef %s : InsertSite :=\n  { lookups := [%s], reserved := [%s],\n    insMangled := [%s], insPlain := [%s] }\n\n'
+            % (doc, name, ', '.join('(.%s, .%s)' % (a, b) for a, b in site['lookups']),
+               ', '.join('.' + a for a in site['reserved']), ', '.join('.' + a for a in site['insMangled']),
+               ', '.join('.' + a for a in site['insPlain'])))
+
 # ------------------------------------------------------------------ rendering
 
 def lean_str(s):
@@ -665,6 +865,26 @@ namespace Sbepp.Extracted.Templates
 
 /-- `false` when the extraction failed and the tables below are stubs -/
 def templatesOk : Bool := %s
+
+/-- the name sets of names_generator.hpp: member names of the entity (`members` / `entry_members`),
+    `mangled_type_names` / `mangled_message_names`, `non_mangled_type_names` / `non_mangled_message_names` -/
+inductive NameSet | members | mangled | nonMangled
+  deriving DecidableEq, Repr
+
+/-- a name at a decision site: the entity's schema name, `<name>_entry`, the mangled name the loop returned, its
+    `_entry` form -/
+inductive NameRef | own | ownEntry | mangledName | mangledEntry
+  deriving DecidableEq, Repr
+
+/-- one decision of names_generator.hpp: the lookups whose disjunction triggers mangling, the sets handed to the
+    mangling loop as reserved, the names inserted into the `mangled_*_names` set in the mangled / in the plain
+    branch (statements after the `if` are attributed to both) -/
+structure InsertSite where
+  lookups : List (NameSet × NameRef)
+  reserved : List NameSet
+  insMangled : List NameRef
+  insPlain : List NameRef
+  deriving DecidableEq, Repr
 
 /-- a generated member that carries a schema name.  `own`: template parameters of the member's own template
     header; `captured`: names (template parameters, packs, parameters, locals) in whose scope the schema name is
@@ -791,6 +1011,14 @@ def extract(repo, outdir):
     except (ExtractError, OSError, ValueError, IndexError) as ex:
         ok = False
         report['failed']['literal_rendering'] = str(ex)
+    empty_site = {'lookups': [], 'reserved': [], 'insMangled': [], 'insPlain': []}
+    ng_sites = {k: empty_site for k in ('publicTypeSite', 'inlineTypeSite', 'messageSite', 'groupSite')}
+    ng_aux = False
+    try:
+        ng_sites, ng_aux = names_generator_shape(repo, report)
+    except (ExtractError, OSError, ValueError, IndexError) as ex:
+        ok = False
+        report['failed']['names_generator'] = str(ex)
     obj, fun, used = platform_macros(repo)
     report['platform_macros'] = {'object_like': len(obj), 'function_like': len(fun), 'compilers': used}
     if not used:
@@ -827,6 +1055,13 @@ def extract(repo, outdir):
              'def macrosStdUnqualified : List String := %s\n\n'
              % tuple(['true' if flags[k] else 'false' for k in ('stripsLeadingZeros', 'floatDotZero', 'escapesLiterals',
                                                                 'valueRefRecordsDependency')] + [lean_list(std_macros)]))
+    text += lean_site('publicTypeSite', ng_sites['publicTypeSite'], 'names_generator::generate_type_names, loop over the public types')
+    text += lean_site('inlineTypeSite', ng_sites['inlineTypeSite'], 'names_generator::handle_composite_elements')
+    text += lean_site('messageSite', ng_sites['messageSite'], 'names_generator::generate_message_names, loop over the messages')
+    text += lean_site('groupSite', ng_sites['groupSite'], 'names_generator::handle_message_level')
+    text += ('/-- `make_mangled_name`, `make_mangled_group_info`, `make_group_entry_name` and the two tag-container decisions '
+             '(`types`, `messages`) have\n    exactly the text Gen/Scope.lean transliterates -/\n'
+             'def mangleLoopsOk : Bool := %s\n\n' % ('true' if ng_aux else 'false'))
     text += '/-- `is_cpp_keyword`, sbe_schema_cpp_validator.hpp (names equal to one of these are rejected) -/\ndef cppKeywords : List String :=\n  %s\n\n' % chunk_list(kws)
     text += '/-- `is_reserved_cpp_namespace` (rejected as schema name only) -/\ndef reservedNamespaces : List String := %s\n\n' % lean_list(reserved)
     text += '/-- object-like macros (not reserved identifiers, not self-referential) defined after `#include <sbepp/sbepp.hpp>`\n    with %s -/\ndef objectMacros : List String :=\n  %s\n\n' % (', '.join(used) or 'no compiler', chunk_list(obj))
